@@ -31,7 +31,7 @@ def run(rep, tier, replay):
                 Kinds=sets(["regular", "hardlink", "symlink", "directory", "missing", "fifo"]),
                 Suffixes=sets(["", ".bz2", ".tbz", ".tbz2", ".tz2", ".tar", ".bz2x"]),
                 Existing=sets(["none", "file", "directory"]), Contents=sets(["good", "bad"]),
-                ModeBits=sets(["0644", "0600", "0755", "4755"]))
+                ModeBits=sets(["0644", "0600", "0755", "4755"]), ErrModes="{FALSE, TRUE}")
     behs, r = inproc.gen("FileOps", dict(MaxOperands=1), ["NeverClobbers", "SkipsNonRegular", "Export"], "fo17", defs=defs, timeout=1500, workers=8)
     if behs is None:
         raise vlib.Infra("FileOps.tla failed: " + r.text[-1500:])
@@ -50,8 +50,8 @@ def run(rep, tier, replay):
         kinds[sc["effects"][0]["outcome"]] = kinds.get(sc["effects"][0]["outcome"], 0) + 1
         if why:
             op = sc["ops"][0]
-            rep.violation("%s -%s on a %s operand x%s (output: %s, bits %s, %s content): %s" %
-                          (sc["mode"], "".join(sorted(sc["opts"])) or "-", op["kind"], op["suffix"], op["existing"], op["bits"], op["content"], why),
+            rep.violation("%s -%s%s on a %s operand x%s (output: %s, bits %s, %s content): %s" %
+                          (sc["mode"], "".join(sorted(sc["opts"])) or "-", " 2>/dev/full" if sc.get("errfull") else "", op["kind"], op["suffix"], op["existing"], op["bits"], op["content"], why),
                           dict(kind="fileops", cls="operand-rule", scenario=sc, why=why))
             if len(rep.violations) >= 8:
                 break
